@@ -1,3 +1,440 @@
-import Gossamer.Model.C03
+/-
+C03 — Trie snapshots are isolated from one another.
+
+Model: `Gossamer.TrieHeap` (heap of trie nodes with generations, in-place writes where the Go code
+makes them, Merkle value caches) and `Gossamer.C03.stepOp` (handles, `Snapshot`, `SetVersion`, …).
+
+* `C03_frame`     — for EVERY history: a mutating operation on a trie of generation `g` leaves every
+                    existing node of another generation untouched except for its `MerkleValue` cache,
+                    never changes a generation, and only creates nodes of generation `g`.
+* `C03_isolated`  — for every history in which no operation writes through a handle that has a live
+                    snapshot below it (`guardOp`, the exact predicate of the driver): an operation —
+                    `Put`, `Delete`, `ClearPrefix`, `ClearPrefixLimit`, `Hash`, `WriteDirty`,
+                    `SetVersion`, `Snapshot`, dropping a handle — leaves `Entries()` of every other
+                    live handle unchanged, and its root hash (`RVal`, the fuel-free semantics of
+                    `Hash()` reading the caches) unchanged provided the root node of the acting trie
+                    is not a proper descendant of the other trie's root (`PD`).
+* `C03_hash_sound`— the executable `Hash()` of the model returns exactly that root hash.
+* `C03_isolated_full_counterexample` — without the guard the statement is false (a write to the
+                    parent after `Snapshot()` shows through the snapshot): known finding
+                    `parent-write-after-snapshot`.
+-/
+import Gossamer.Lib.C03Step
 namespace Gossamer.C03
+open Gossamer Gossamer.Trie Gossamer.TrieHeap
+
+/-- the handle an operation acts on (its own view may change) -/
+def Op.actor : Op → Option Nat
+  | .put h _ _ => some h
+  | .del h _ => some h
+  | .clr h _ => some h
+  | .clrl h _ _ => some h
+  | .hash h => some h
+  | .wd h => some h
+  | .ver h _ => some h
+  | .drop h => some h
+  | .snap _ => none
+  | .hashall => none
+  | .bad => none
+
+/-- the root node of the trie an operation hashes or writes through -/
+def actorRoot (s : St) : Op → Option Nat
+  | .put h _ _ => (s.handle? h).bind (·.t.root)
+  | .del h _ => (s.handle? h).bind (·.t.root)
+  | .clr h _ => (s.handle? h).bind (·.t.root)
+  | .clrl h _ _ => (s.handle? h).bind (·.t.root)
+  | .hash h => (s.handle? h).bind (·.t.root)
+  | .wd h => (s.handle? h).bind (·.t.root)
+  | _ => none
+
+theorem same_refl (H : Bytes → Bytes) (s : St) {k : Nat} {y : HInfo} (hl : Live s k y) (ar : Option Nat) :
+    Same H s s k y ar := ⟨hl, rfl, fun _ _ _ _ => Iff.rfl⟩
+
+theorem guard_target {s : St} {op : Op} {h : Nat} (ht : op.target = some h) (hI : SInv s)
+    (hg : guardOp s op = true) : ∀ j y, Live s j y → ¬ Anc s.hs h j := by
+  unfold guardOp at hg
+  rw [ht] at hg
+  simp only [Bool.not_eq_true'] at hg
+  exact no_live_desc hI.parentLt hg
+
+/-- **One step.**  From a state satisfying the invariant, an operation that respects the guard keeps
+    the invariant and leaves every other live handle alone. -/
+theorem C03_step (H : Bytes → Bytes) (s : St) (hI : SInv s) (op : Op) (hne : op ≠ .hashall)
+    (hg : guardOp s op = true) :
+    SInv (stepOp H false s op).1 ∧
+    ∀ k y, Live s k y → op.actor ≠ some k → Same H s (stepOp H false s op).1 k y (actorRoot s op) := by
+  have hnone : ∀ (ar : Option Nat) (P : Nat → Prop),
+      SInv s ∧ ∀ k y, Live s k y → P k → Same H s s k y ar :=
+    fun ar _ => ⟨hI, fun k y hk _ => same_refl H s hk ar⟩
+  cases op with
+  | put h k v =>
+    cases hh : s.handle? h with
+    | none => simp only [stepOp, actorRoot, hh]; exact hnone _ _
+    | some x =>
+      simp only [stepOp, actorRoot, hh, Option.bind_some]
+      have hl := handle?_live hh
+      have hok := put_ok H s.hp x.t hI.wf (hI.roots h x hl) k v
+      obtain ⟨h1, h2⟩ := mut_step hI hl hok (guard_target rfl hI hg)
+      exact ⟨h1, fun k' y hk hne' => h2 k' y hk (fun e => hne' (by rw [e]; rfl))⟩
+  | del h k =>
+    cases hh : s.handle? h with
+    | none => simp only [stepOp, actorRoot, hh]; exact hnone _ _
+    | some x =>
+      simp only [stepOp, actorRoot, hh, Option.bind_some]
+      have hl := handle?_live hh
+      have hok := delete_ok H s.hp x.t hI.wf (hI.roots h x hl) k
+      obtain ⟨h1, h2⟩ := mut_step hI hl hok (guard_target rfl hI hg)
+      exact ⟨h1, fun k' y hk hne' => h2 k' y hk (fun e => hne' (by rw [e]; rfl))⟩
+  | clr h p =>
+    cases hh : s.handle? h with
+    | none => simp only [stepOp, actorRoot, hh]; exact hnone _ _
+    | some x =>
+      simp only [stepOp, actorRoot, hh, Option.bind_some]
+      have hl := handle?_live hh
+      have hok := clearPrefix_ok H s.hp x.t hI.wf (hI.roots h x hl) p
+      obtain ⟨h1, h2⟩ := mut_step hI hl hok (guard_target rfl hI hg)
+      exact ⟨h1, fun k' y hk hne' => h2 k' y hk (fun e => hne' (by rw [e]; rfl))⟩
+  | clrl h p n =>
+    cases hh : s.handle? h with
+    | none => simp only [stepOp, actorRoot, hh]; exact hnone _ _
+    | some x =>
+      simp only [stepOp, actorRoot, hh, Option.bind_some]
+      have hl := handle?_live hh
+      split
+      · exact hnone _ _
+      · have hok := clearPrefixLimit_ok H s.hp x.t hI.wf (hI.roots h x hl) p n
+        obtain ⟨h1, h2⟩ := mut_step hI hl hok (guard_target rfl hI hg)
+        exact ⟨h1, fun k' y hk hne' => h2 k' y hk (fun e => hne' (by rw [e]; rfl))⟩
+  | snap h =>
+    cases hh : s.handle? h with
+    | none => simp only [stepOp, actorRoot, hh]; exact hnone _ _
+    | some x =>
+      simp only [stepOp, actorRoot, hh, Option.bind_some]
+      have hl := handle?_live hh
+      obtain ⟨h1, h2⟩ := snap_step (H := H) hI hl
+      exact ⟨h1, fun k' y hk _ => h2 k' y hk⟩
+  | ver h v =>
+    cases hh : s.handle? h with
+    | none => simp only [stepOp, actorRoot, hh]; exact hnone _ _
+    | some x =>
+      simp only [stepOp, actorRoot, hh, Option.bind_some]
+      have hl := handle?_live hh
+      split
+      · exact hnone _ _
+      · obtain ⟨h1, h2⟩ := ver_step (H := H) hI hl v
+        exact ⟨h1, fun k' y hk hne' => h2 k' y hk (fun e => hne' (by rw [e]; rfl))⟩
+  | hash h =>
+    cases hh : s.handle? h with
+    | none => simp only [stepOp, actorRoot, hh]; exact hnone _ _
+    | some x =>
+      simp only [stepOp, actorRoot, hh, Option.bind_some]
+      obtain ⟨h1, h2⟩ := hash_step (H := H) hI x.t
+      exact ⟨h1, fun k' y hk _ => h2 k' y hk⟩
+  | hashall => exact absurd rfl hne
+  | wd h =>
+    cases hh : s.handle? h with
+    | none => simp only [stepOp, actorRoot, hh]; exact hnone _ _
+    | some x =>
+      simp only [stepOp, actorRoot, hh, Option.bind_some]
+      obtain ⟨h1, h2⟩ := wd_step (H := H) hI x.t
+      exact ⟨h1, fun k' y hk _ => h2 k' y hk⟩
+  | drop h =>
+    cases hh : s.handle? h with
+    | none => simp only [stepOp, actorRoot, hh]; exact hnone _ _
+    | some x =>
+      simp only [stepOp, actorRoot, hh, Option.bind_some]
+      have hl := handle?_live hh
+      obtain ⟨h1, h2⟩ := drop_step (H := H) hI hl
+      exact ⟨h1, fun k' y hk hne' => h2 k' y hk (fun e => hne' (by rw [e]; rfl))⟩
+  | bad => exact hnone _ _
+
+/-- `hashall` (= `Hash()` of every live handle in turn) keeps the invariant and all entries -/
+theorem C03_hashall (H : Bytes → Bytes) (s : St) (hI : SInv s) :
+    SInv (stepOp H false s .hashall).1 ∧
+    ∀ k y, Live s k y → Live (stepOp H false s .hashall).1 k y ∧
+      entries (stepOp H false s .hashall).1.hp y.t.root = entries s.hp y.t.root := by
+  have hc : CacheOnly s.hp (hashAll.go H 0 s.hp s.hs).1 := hashAll_go_cacheOnly H s.hs 0 s.hp
+  exact cache_inv hI hc
+
+/-! ### all histories -/
+
+/-- the state after a history (a Go panic ends it) -/
+def runState (H : Bytes → Bytes) : St → List Op → St
+  | s, [] => s
+  | s, op :: r => if (stepOp H false s op).2.2 then s else runState H (stepOp H false s op).1 r
+
+theorem sinv_step (H : Bytes → Bytes) (s : St) (hI : SInv s) (op : Op) (hg : guardOp s op = true) :
+    SInv (stepOp H false s op).1 := by
+  by_cases hne : op = .hashall
+  · subst hne; exact (C03_hashall H s hI).1
+  · exact (C03_step H s hI op hne hg).1
+
+/-- **The invariant holds after every history that respects the guard** (`violatesGuard` is the
+    predicate the driver evaluates to tag the known finding). -/
+theorem C03_inv_reachable (H : Bytes → Bytes) : ∀ (ops : List Op) (s : St), SInv s →
+    violatesGuard H s ops = false → SInv (runState H s ops)
+  | [], s, hI, _ => hI
+  | op :: r, s, hI, hv => by
+    unfold violatesGuard at hv
+    unfold runState
+    by_cases hg : guardOp s op = true
+    · simp only [hg, Bool.not_true, Bool.false_eq_true, if_false] at hv
+      split
+      · exact hI
+      · rename_i hp
+        simp only [hp, if_false] at hv
+        exact C03_inv_reachable H r _ (sinv_step H s hI op hg) hv
+    · simp [hg] at hv
+
+/-- **Isolation.**  After any history from the empty trie that respects the guard, an operation that
+    respects the guard leaves every other live handle with the same `Entries()` and — if the root
+    node of the acting trie does not lie strictly below the other trie's root — the same root hash. -/
+theorem C03_isolated (H : Bytes → Bytes) (ops : List Op) (hv : violatesGuard H St.init ops = false)
+    (op : Op) (hne : op ≠ .hashall) (hg : guardOp (runState H St.init ops) op = true) :
+    ∀ k y, Live (runState H St.init ops) k y → op.actor ≠ some k →
+      Same H (runState H St.init ops) (stepOp H false (runState H St.init ops) op).1 k y
+        (actorRoot (runState H St.init ops) op) :=
+  (C03_step H _ (C03_inv_reachable H ops St.init SInv.init hv) op hne hg).2
+
+/-- `hashall` after such a history: every live handle keeps its entries -/
+theorem C03_isolated_hashall (H : Bytes → Bytes) (ops : List Op)
+    (hv : violatesGuard H St.init ops = false) :
+    ∀ k y, Live (runState H St.init ops) k y →
+      entries (stepOp H false (runState H St.init ops) .hashall).1.hp y.t.root =
+        entries (runState H St.init ops).hp y.t.root :=
+  fun k y hk => ((C03_hashall H _ (C03_inv_reachable H ops St.init SInv.init hv)).2 k y hk).2
+
+/-- the root hash of the isolation theorem is what the executable `Hash()` of the model returns -/
+theorem C03_hash_sound (H : Bytes → Bytes) (hp : Heap) (t : Handle) (r : Nat) (hr : t.root = some r)
+    (m : Bytes) (h : (hash H hp t).2 = some m) : RVal H hp r m := hash_sound H hp t r hr m h
+
+/-- the root hash is a function of the heap: two runs of `Hash()` that both return agree -/
+theorem C03_hash_unique (H : Bytes → Bytes) (hp : Heap) (r : Nat) (m m' : Bytes)
+    (h : RVal H hp r m) (h' : RVal H hp r m') : m = m' := h.functional h'
+
+/-! ### the generation frame, for every history (guarded or not) -/
+
+/-- well-formedness that every history keeps: child pointers and roots are allocated -/
+structure WInv (s : St) : Prop where
+  wf : HeapWF s.hp
+  roots : ∀ (i : Nat) (x : HInfo), s.hs[i]? = some x → ∀ r, x.t.root = some r → r < s.hp.size
+
+theorem WInv.init : WInv St.init where
+  wf := by intro a ha; simp [St.init, Heap.empty, Heap.size] at ha
+  roots := by
+    intro i x hx r hr
+    cases i with
+    | zero => simp [St.init] at hx; subst hx; simp at hr
+    | succ i => simp [St.init] at hx
+
+theorem handle?_get {s : St} {h : Nat} {x : HInfo} (hh : s.handle? h = some x) : s.hs[h]? = some x :=
+  (handle?_live hh).1
+
+theorem winv_mut {H : Bytes → Bytes} {s : St} (hW : WInv s) {h : Nat} {x : HInfo}
+    (hx : s.hs[h]? = some x) {hp' : Heap} {t' : Handle} (hok : TopOK H s.hp x.t hp' t') :
+    WInv (s.setHandle hp' h x t') := by
+  refine ⟨hok.good.wf, ?_⟩
+  intro i y hy r hr
+  unfold St.setHandle at hy
+  simp only [getElem?_setAt] at hy
+  split at hy
+  · cases hy; exact (hok.root r hr).2
+  · exact Nat.lt_of_lt_of_le (hW.roots i y hy r hr) hok.good.size
+
+theorem winv_cache {s : St} (hW : WInv s) {hp' : Heap} (hc : CacheOnly s.hp hp') :
+    WInv { s with hp := hp' } := by
+  refine ⟨?_, ?_⟩
+  · intro a ha i x hx
+    show x < hp'.size
+    rw [hc.size] at ha ⊢
+    rw [strip_kids (hc.cell a)] at hx
+    exact hW.wf a ha i x hx
+  · intro i y hy r hr
+    show r < hp'.size
+    rw [hc.size]; exact hW.roots i y hy r hr
+
+theorem winv_step (H : Bytes → Bytes) (s : St) (hW : WInv s) (op : Op) : WInv (stepOp H false s op).1 := by
+  cases op with
+  | put h k v =>
+    cases hh : s.handle? h with
+    | none => simp only [stepOp, hh]; exact hW
+    | some x =>
+      simp only [stepOp, hh]
+      exact winv_mut hW (handle?_get hh) (put_ok H s.hp x.t hW.wf (hW.roots h x (handle?_get hh)) k v)
+  | del h k =>
+    cases hh : s.handle? h with
+    | none => simp only [stepOp, hh]; exact hW
+    | some x =>
+      simp only [stepOp, hh]
+      exact winv_mut hW (handle?_get hh) (delete_ok H s.hp x.t hW.wf (hW.roots h x (handle?_get hh)) k)
+  | clr h p =>
+    cases hh : s.handle? h with
+    | none => simp only [stepOp, hh]; exact hW
+    | some x =>
+      simp only [stepOp, hh]
+      exact winv_mut hW (handle?_get hh) (clearPrefix_ok H s.hp x.t hW.wf (hW.roots h x (handle?_get hh)) p)
+  | clrl h p n =>
+    cases hh : s.handle? h with
+    | none => simp only [stepOp, hh]; exact hW
+    | some x =>
+      simp only [stepOp, hh]
+      split
+      · exact hW
+      · exact winv_mut hW (handle?_get hh)
+          (clearPrefixLimit_ok H s.hp x.t hW.wf (hW.roots h x (handle?_get hh)) p n)
+  | snap h =>
+    cases hh : s.handle? h with
+    | none => simp only [stepOp, hh]; exact hW
+    | some x =>
+      simp only [stepOp, hh, Bool.false_eq_true, if_false]
+      refine ⟨hW.wf, ?_⟩
+      intro i y hy r hr
+      by_cases hi : i < s.hs.length
+      · rw [List.getElem?_append_left hi] at hy; exact hW.roots i y hy r hr
+      · by_cases he : i = s.hs.length
+        · subst he
+          simp at hy
+          subst hy
+          exact hW.roots h x (handle?_get hh) r hr
+        · rw [List.getElem?_eq_none (by simp; omega)] at hy; cases hy
+  | ver h v =>
+    cases hh : s.handle? h with
+    | none => simp only [stepOp, hh]; exact hW
+    | some x =>
+      simp only [stepOp, hh]
+      split
+      · exact hW
+      · refine ⟨hW.wf, ?_⟩
+        intro i y hy r hr
+        unfold St.setHandle at hy
+        simp only [getElem?_setAt] at hy
+        split at hy
+        · cases hy; exact hW.roots h x (handle?_get hh) r hr
+        · exact hW.roots i y hy r hr
+  | hash h =>
+    cases hh : s.handle? h with
+    | none => simp only [stepOp, hh]; exact hW
+    | some x => simp only [stepOp, hh]; exact winv_cache hW (mvOnly_hash H s.hp x.t).cacheOnly
+  | hashall => exact winv_cache hW (hashAll_go_cacheOnly H s.hs 0 s.hp)
+  | wd h =>
+    cases hh : s.handle? h with
+    | none => simp only [stepOp, hh]; exact hW
+    | some x => simp only [stepOp, hh]; exact winv_cache hW (writeDirty_cacheOnly H s.hp [] x.t)
+  | drop h =>
+    cases hh : s.handle? h with
+    | none => simp only [stepOp, hh]; exact hW
+    | some x =>
+      simp only [stepOp, hh]
+      refine ⟨hW.wf, ?_⟩
+      intro i y hy r hr
+      simp only [getElem?_setAt] at hy
+      split at hy
+      · cases hy; exact hW.roots h x (handle?_get hh) r hr
+      · exact hW.roots i y hy r hr
+  | bad => exact hW
+
+theorem winv_run (H : Bytes → Bytes) : ∀ (ops : List Op) (s : St), WInv s → WInv (runState H s ops)
+  | [], _, hW => hW
+  | op :: r, s, hW => by
+    unfold runState
+    split
+    · exact hW
+    · exact winv_run H r _ (winv_step H s hW op)
+
+/-- the result of a mutating method of the trie `t` -/
+def mutResult (H : Bytes → Bytes) (hp : Heap) (t : Handle) : Op → Option Heap
+  | .put _ k v => some (put H hp t k v).1
+  | .del _ k => some (delete H hp t k).1
+  | .clr _ p => some (clearPrefix H hp t p).1
+  | .clrl _ p n => some (clearPrefixLimit H hp t p n).1
+  | _ => none
+
+/-- **Generation frame, for every history.**  A mutating operation on a trie of generation `g`
+    only appends nodes, all of generation `g`; it never changes the generation of a node; and a node
+    of another generation keeps every field except its `MerkleValue` cache. -/
+theorem C03_frame (H : Bytes → Bytes) (ops : List Op) (op : Op) (h : Nat) (x : HInfo)
+    (hx : (runState H St.init ops).handle? h = some x) (hp' : Heap)
+    (hm : mutResult H (runState H St.init ops).hp x.t op = some hp') :
+    (runState H St.init ops).hp.size ≤ hp'.size ∧
+    (∀ a, a < (runState H St.init ops).hp.size →
+      (hp'.get a).gen = ((runState H St.init ops).hp.get a).gen ∧
+      (((runState H St.init ops).hp.get a).gen ≠ x.t.gen →
+        (hp'.get a).strip = ((runState H St.init ops).hp.get a).strip ∧
+        (hp'.get a).dirty = ((runState H St.init ops).hp.get a).dirty)) ∧
+    (∀ a, (runState H St.init ops).hp.size ≤ a → a < hp'.size → (hp'.get a).gen = x.t.gen) := by
+  have hW := winv_run H ops St.init WInv.init
+  have hr := hW.roots h x (handle?_get hx)
+  have key : ∀ t', TopOK H (runState H St.init ops).hp x.t hp' t' →
+      (runState H St.init ops).hp.size ≤ hp'.size ∧
+      (∀ a, a < (runState H St.init ops).hp.size →
+        (hp'.get a).gen = ((runState H St.init ops).hp.get a).gen ∧
+        (((runState H St.init ops).hp.get a).gen ≠ x.t.gen →
+          (hp'.get a).strip = ((runState H St.init ops).hp.get a).strip ∧
+          (hp'.get a).dirty = ((runState H St.init ops).hp.get a).dirty)) ∧
+      (∀ a, (runState H St.init ops).hp.size ≤ a → a < hp'.size → (hp'.get a).gen = x.t.gen) := by
+    intro t' hok
+    refine ⟨hok.good.size, fun a ha => ⟨hok.good.gen a ha, fun hne => ?_⟩, fun a h1 h2 => hok.good.fresh a h1 h2⟩
+    exact hok.good.frame a ha (fun ho => hne ho.2)
+  cases op with
+  | put _ k v => simp only [mutResult, Option.some.injEq] at hm; subst hm; exact key _ (put_ok H _ x.t hW.wf hr k v)
+  | del _ k => simp only [mutResult, Option.some.injEq] at hm; subst hm; exact key _ (delete_ok H _ x.t hW.wf hr k)
+  | clr _ p => simp only [mutResult, Option.some.injEq] at hm; subst hm; exact key _ (clearPrefix_ok H _ x.t hW.wf hr p)
+  | clrl _ p n =>
+    simp only [mutResult, Option.some.injEq] at hm; subst hm
+    exact key _ (clearPrefixLimit_ok H _ x.t hW.wf hr p n)
+  | snap _ => simp [mutResult] at hm
+  | ver _ _ => simp [mutResult] at hm
+  | hash _ => simp [mutResult] at hm
+  | hashall => simp [mutResult] at hm
+  | wd _ => simp [mutResult] at hm
+  | drop _ => simp [mutResult] at hm
+  | bad => simp [mutResult] at hm
+
+/-! ### the unguarded statement is false; the guarded one is not vacuous -/
+
+/-- some hash function (the witnesses below never hash) -/
+def H0 : Bytes → Bytes := fun _ => []
+
+/-- `put h0 12 01; snap h0` -/
+def cexOps : List Op := [.put 0 [0x12] [1], .snap 0]
+
+/-- `put h0 12 02`: a write through the parent of the live snapshot `h1` -/
+def cexOp : Op := .put 0 [0x12] [2]
+
+/-- **Without the guard the isolation statement is false**: after `put h0 12 01; snap h0`, the
+    operation `put h0 12 02` (whose guard is false: `h0` has the live snapshot `h1`) changes the
+    entries seen through `h1`.  Known finding `parent-write-after-snapshot`. -/
+theorem C03_isolated_full_counterexample :
+    violatesGuard H0 St.init cexOps = false ∧ guardOp (runState H0 St.init cexOps) cexOp = false ∧
+    cexOp.actor ≠ some 1 ∧
+    ∃ y, Live (runState H0 St.init cexOps) 1 y ∧
+      entries (stepOp H0 false (runState H0 St.init cexOps) cexOp).1.hp y.t.root ≠
+        entries (runState H0 St.init cexOps).hp y.t.root := by
+  refine ⟨by decide, by decide, by decide, ⟨{ root := some 0, gen := 1, ver := Ver.v0 }, some 0, true⟩, ?_, ?_⟩
+  · constructor <;> rfl
+  · set_option maxRecDepth 100000 in decide
+
+/-- a history that respects the guard, with three handles that end up with three different contents:
+    the hypotheses of `C03_isolated` are satisfiable in a non-trivial way -/
+def okOps : List Op :=
+  [.put 0 [0x12] [1], .put 0 [0x13] [1], .snap 0, .snap 0, .put 1 [0x12] [2], .del 2 [0x13],
+   .snap 1, .ver 3 Ver.v1, .put 3 [0x12, 0x34] [3]]
+
+/-- `Entries()` of handle `i` -/
+def entriesOf (s : St) (i : Nat) : List (Bytes × Option Bytes) :=
+  match s.hs[i]? with
+  | some x => entries s.hp x.t.root
+  | none => []
+
+set_option maxRecDepth 100000 in
+unseal encodeKids in
+example : violatesGuard H0 St.init okOps = false ∧
+    guardOp (runState H0 St.init okOps) (.put 2 [0x12] [9]) = true ∧
+    entriesOf (runState H0 St.init okOps) 0 = [([0x12], some [1]), ([0x13], some [1])] ∧
+    entriesOf (runState H0 St.init okOps) 1 = [([0x12], some [2]), ([0x13], some [1])] ∧
+    entriesOf (runState H0 St.init okOps) 2 = [([0x12], some [1])] ∧
+    entriesOf (runState H0 St.init okOps) 3 =
+      [([0x12], some [2]), ([0x12, 0x34], some [3]), ([0x13], some [1])] := by
+  refine ⟨by decide, by decide, by decide, by decide, by decide, by decide⟩
+
 end Gossamer.C03
